@@ -255,6 +255,8 @@ DEFAULT_OPTS = {
     "synonym_prob": 0.1,
     "min_functions": 1,
     "shuffle_sections": True,
+    "prefer_species": None,
+    "species_override_prob": 0.2,
 }
 
 
@@ -264,8 +266,13 @@ def gen_model(rng, opts=None):
         o.update(opts)
     target = rng.choice(o["targets"])
     kind = KIND_OF_TARGET[target]
-    nsp = rng.randint(1, o["max_species"])
+    nsp = rng.randint(min(o.get("min_species", 1), o["max_species"]), o["max_species"])
     pool_real = rng.sample(REAL_SPECIES, min(nsp, len(REAL_SPECIES)))
+    if o.get("prefer_species"):
+        # related models in one pool share species (so per-species state can collide)
+        pref = [x for x in o["prefer_species"] if x in REAL_SPECIES]
+        rng.shuffle(pref)
+        pool_real = (pref + [x for x in pool_real if x not in pref])[:max(nsp, 1)]
     species = []
     fake_used = []
     for i in range(nsp):
@@ -277,7 +284,11 @@ def gen_model(rng, opts=None):
         species.append(s)
 
     # grid
-    if target == "DLPOLY":
+    if o.get("nr_fixed"):
+        nr = int(o["nr_fixed"])
+        if target == "DLPOLY":
+            nr = max(8, (nr // 4) * 4)
+    elif target == "DLPOLY":
         nr = 4 * rng.randint(2, max(2, o["nr_max"] // 4))
     else:
         nr = rng.randint(4, o["nr_max"])
@@ -294,7 +305,7 @@ def gen_model(rng, opts=None):
     nrho = None
     cutoff_rho = None
     if kind != "pair":
-        nrho = rng.randint(3, o["nrho_max"])
+        nrho = int(o["nrho_fixed"]) if o.get("nrho_fixed") else rng.randint(3, o["nrho_max"])
         cutoff_rho = rng.choice([2.0, 10.0, 50.0, 4.0])
         if rng.random() < 0.7:
             tab += [["nrho", str(nrho)], ["cutoff_rho", fmt_num(cutoff_rho)]]
@@ -384,8 +395,11 @@ def gen_model(rng, opts=None):
                 sp_entries.append(["%s.atomic_number" % s, str(rng.randint(1, 100))])
                 if rng.random() < 0.4:
                     sp_entries.append(["%s.lattice_type" % s, rng.choice(["bcc", "fcc", "hcp"])])
-            elif rng.random() < 0.2:
-                sp_entries.append(["%s.lattice_constant" % s, fmt_num(_u(rng, 2, 6))])
+            elif rng.random() < o.get("species_override_prob", 0.2):
+                prop = rng.choice(["lattice_constant", "lattice_constant", "atomic_mass", "lattice_type", "atomic_number"])
+                val = {"lattice_constant": fmt_num(_u(rng, 2, 6)), "atomic_mass": fmt_num(_u(rng, 1, 250, 2)),
+                       "lattice_type": rng.choice(["bcc", "hcp", "sc"]), "atomic_number": str(rng.randint(1, 100))}[prop]
+                sp_entries.append(["%s.%s" % (s, prop), val])
         if sp_entries:
             sections.append({"name": "Species", "entries": sp_entries})
         meta_species = list(species)
